@@ -61,8 +61,11 @@ def run(tier: str) -> int:
             {"Family": "trivia2", "MaxLen": 4, "Starts": "zero", "Sample": 150, "workers": 3},
             {"Family": "trivia3", "MaxLen": 3, "Starts": "all", "Sample": 150, "workers": 3},
             {"Family": "mods", "MaxLen": 4, "Starts": "zero", "Sample": 150, "workers": 3},
-            {"Family": "stack", "MaxLen": 4, "Starts": "zero", "Sample": 500, "workers": 3},
+            {"Family": "stack", "MaxLen": 4, "Starts": "zero", "Sample": 400, "workers": 3},
+            {"Family": "stack1", "MaxLen": 3, "Starts": "zero", "Sample": 0, "workers": 3, "style": "both"},
+            {"Family": "stackdeep", "MaxLen": 3, "Starts": "zero", "Sample": 800, "workers": 3},
             {"Family": "tags", "MaxLen": 4, "Starts": "zero", "Sample": 250, "workers": 2},
+            {"Family": "names", "MaxLen": 3, "Starts": "zero", "Sample": 300, "workers": 2},
         ]
     else:
         fams = [
@@ -72,7 +75,10 @@ def run(tier: str) -> int:
             {"Family": "trivia3", "MaxLen": 4, "Starts": "zero", "Sample": 0, "workers": 8},
             {"Family": "mods", "MaxLen": 4, "Starts": "zero", "Sample": 0, "workers": 8},
             {"Family": "stack", "MaxLen": 4, "Starts": "all", "Sample": 0, "workers": 8},
+            {"Family": "stack1", "MaxLen": 4, "Starts": "all", "Sample": 0, "workers": 8, "style": "both"},
+            {"Family": "stackdeep", "MaxLen": 4, "Starts": "zero", "Sample": 20000, "workers": 8},
             {"Family": "tags", "MaxLen": 4, "Starts": "all", "Sample": 0, "workers": 8},
+            {"Family": "names", "MaxLen": 4, "Starts": "zero", "Sample": 0, "workers": 8},
         ]
     for f in fams:
         f["gen_twice"] = True
